@@ -319,6 +319,85 @@ async fn recv_side_case(rep: &mut Report, t: SocketType, rcvtimeo: i32) {
   let _ = tokio::time::timeout(Duration::from_secs(12), ctx.term()).await;
 }
 
+/// (plateau) a producer that retries for seconds against a consumer that never reads: once the queues are full the number
+/// of accepted messages must stop growing - also with the timer-driven machinery (heartbeats on either side) running,
+/// which opens the receive path periodically. Judged on the second half of the observation window.
+async fn plateau_case(rep: &mut Report, rng: &mut Rng, pair: Pair, tr: Transport, hwm: i32, hb_side: &str) {
+  let msg_len = 64 * 1024;
+  let ctx = util::new_ctx();
+  let (ta, tb) = types(pair);
+  let a = ctx.socket(ta).unwrap();
+  let b = ctx.socket(tb).unwrap();
+  for s in [&a, &b] {
+    util::set_i32(s, opt::SNDHWM, hwm).await;
+    util::set_i32(s, opt::RCVHWM, hwm).await;
+    let _ = s.set_option(opt::SNDBUF, 32 * 1024).await;
+    let _ = s.set_option(opt::RCVBUF, 32 * 1024).await;
+  }
+  util::set_i32(&a, opt::SNDTIMEO, 0).await;
+  for (s, side) in [(&a, "sender"), (&b, "receiver")] {
+    if hb_side == side || hb_side == "both" {
+      util::set_i32(s, opt::HEARTBEAT_IVL, 100).await;
+      util::set_i32(s, opt::HEARTBEAT_TIMEOUT, 60_000).await;
+    }
+  }
+  let mut dest = None;
+  if pair == Pair::RouterDealer {
+    let _ = a.set_option(opt::ROUTER_MANDATORY, true).await;
+    let _ = b.set_option_raw(opt::ROUTING_ID, b"D1").await;
+    dest = Some(b"D1".to_vec());
+  }
+  let Ok(ep) = util::bind_fresh(&b, tr).await else {
+    rep.inconclusive("bind failed".to_string());
+    return;
+  };
+  let _ = a.connect(&ep).await;
+  tokio::time::sleep(Duration::from_millis(300)).await;
+  let run = (rng.next() & 0x7FFF_FFFF) as u32;
+  let window = Duration::from_millis(2000);
+  let t0 = Instant::now();
+  let (mut first_half, mut second_half, mut refused) = (0usize, 0usize, 0usize);
+  let mut seq = 0u32;
+  let mut other_err: Option<String> = None;
+  while t0.elapsed() < window * 2 {
+    match tokio::time::timeout(Duration::from_secs(2), send_one(&a, run, seq, msg_len, &dest)).await {
+      Ok(Ok(())) => {
+        if t0.elapsed() < window {
+          first_half += 1;
+        } else {
+          second_half += 1;
+        }
+        seq += 1;
+      }
+      Ok(Err(e)) => {
+        refused += 1;
+        if !is_wouldblock(&e) && !is_timeout(&e) {
+          other_err.get_or_insert(format!("{:?}", e));
+        }
+        tokio::time::sleep(Duration::from_millis(2)).await;
+      }
+      Err(_) => {
+        refused += 1;
+      }
+    }
+  }
+  let cfg = format!("{:?} over {} HWM={} SNDTIMEO=0 heartbeat={}", pair, tr.name(), hwm, hb_side);
+  rep.case(&("plateau", pair, tr, hwm, hb_side), true);
+  rep.max(&format!("max:plateau_accepted_second_half[{}]", hb_side), second_half as u64);
+  if refused == 0 {
+    rep.inconclusive(format!("{}: the producer was never refused in {:?} ({} accepted): queues never filled", cfg, window * 2, first_half + second_half));
+  } else if let Some(e) = other_err {
+    rep.note(format!("{}: sends failed with {} (connection lost?) - plateau not judged", cfg, e));
+  } else if second_half > 2 {
+    rep.violation(
+      format!("hwm_unbounded|still_accepting_while_peer_never_reads|heartbeat={}", hb_side),
+      format!("{}: the peer never read, yet after {} messages in the first {:?} another {} were accepted in the next {:?} ({} refusals): buffering keeps growing", cfg, first_half, window, second_half, window, refused),
+      json!({"config": cfg, "first_half": first_half, "second_half": second_half, "refused": refused}),
+    );
+  }
+  let _ = tokio::time::timeout(Duration::from_secs(12), ctx.term()).await;
+}
+
 fn main() {
   let args = Args::parse();
   util::install_panic_watch();
@@ -327,6 +406,24 @@ fn main() {
   let rt = util::runtime(2);
   let mut idx = 0usize;
   match args.only.as_deref() {
+    Some("plateau") => {
+      for pair in [Pair::PushPull, Pair::DealerRouter, Pair::RouterDealer] {
+        for tr in [Transport::Tcp, Transport::Ipc] {
+          for hb in ["none", "receiver", "sender", "both"] {
+            for &hwm in &[10, 1, 100] {
+              idx += 1;
+              if !args.mine(idx) {
+                continue;
+              }
+              if !args.thorough() && (hwm != 10 || (tr == Transport::Ipc && pair != Pair::PushPull)) {
+                continue;
+              }
+              util::guarded(&rt, plateau_case(&mut rep, &mut rng, pair, tr, hwm, hb));
+            }
+          }
+        }
+      }
+    }
     Some("recv") => {
       for t in [SocketType::Pull, SocketType::Sub, SocketType::Dealer, SocketType::Router, SocketType::Rep, SocketType::Req] {
         for to in [0, 20, 100, 500, -1] {
